@@ -62,7 +62,7 @@ def _mk_recorder():
     return R()
 
 
-BATCH_FORMS = ("list", "generator", "iter", "tuple", "mixed")
+BATCH_FORMS = ("list", "generator", "iter", "tuple", "mixed", "lazy")
 
 
 def as_batch(chunk, form, k=0):
@@ -139,6 +139,70 @@ def run_single_history(values, minimize, batches, rec, tag, form="list", number_
         rec.fail(
             f"C12/single/{tag}/is_best-flag-wrong",
             f"history {values} (minimize={minimize}): is_best flags {flags}, expected {ref_flags[:pos]} (first difference at #{k}: value {values[k]})",
+        )
+
+
+def run_lazy_history(values, minimize, batches, rec, tag, number_form=None):
+    """The batch is produced on the fly: `tracker.evaluate(Individual(g, rep) for g in genotypes)`, and
+    neither the harness nor its recorder keeps a reference to an individual (a CSV recorder does not
+    either), so an individual that does not become the best is freed before the next one exists.
+    Judged by value and position."""
+    from geneticengine.evaluation.recorder import SearchRecorder
+    from geneticengine.evaluation.sequential import SequentialEvaluator
+    from geneticengine.evaluation.tracker import SingleObjectiveProgressTracker
+    from geneticengine.problems import SingleObjectiveProblem
+    from geneticengine.solutions.individual import Individual
+
+    from vk.values import as_form, num
+
+    values = [num(v) for v in values]
+    rep = TableRep()
+    problem = SingleObjectiveProblem(lambda p: as_form(p[1], number_form), minimize=minimize)
+    events = []
+
+    class Light(SearchRecorder):
+        def register(self, tracker, individual, problem, is_best):
+            events.append((individual.genotype[0], bool(is_best)))
+
+    tracker = SingleObjectiveProgressTracker(problem, SequentialEvaluator(), recorders=[Light()])
+    ref_best = None
+    ref_flags = []
+    pos = 0
+    for b in batches:
+        chunk = list(enumerate(values))[pos : pos + b]
+        if not chunk:
+            break
+        tracker.evaluate(Individual(g, rep) for g in chunk)
+        for i, v in chunk:
+            if ref_best is None or better(v, ref_best[1], minimize):
+                ref_best = (i, v)
+                ref_flags.append(True)
+            else:
+                ref_flags.append(False)
+        pos += len(chunk)
+        got = tracker.get_best_individual()
+        gg = tuple(got.genotype) if got is not None else None
+        if gg != ref_best:
+            if got is None or better(ref_best[1], gg[1], minimize):
+                rec.fail(
+                    f"C12/single/{tag}/best-is-not-the-best-evaluated",
+                    f"history {values} (minimize={minimize}, batches {batches}, individuals created on the fly): after {pos} evaluations best reported {gg}, but {ref_best} is strictly better",
+                )
+            else:
+                rec.fail(
+                    f"C12/single/{tag}/best-replaced-on-tie",
+                    f"history {values} (minimize={minimize}, batches {batches}, individuals created on the fly): after {pos} evaluations best reported {gg}, reference (first to attain the optimum) {ref_best}",
+                )
+            return
+    if [i for i, _ in events] != list(range(pos)):
+        rec.fail(f"C12/single/{tag}/registrations-missing-or-reordered", f"history {values} (individuals created on the fly): registered indices {[i for i, _ in events]}")
+        return
+    flags = [f for _, f in events]
+    if flags != ref_flags[:pos]:
+        k = next(i for i, (a, b) in enumerate(zip(flags, ref_flags)) if a != b)
+        rec.fail(
+            f"C12/single/{tag}/is_best-flag-wrong",
+            f"history {values} (minimize={minimize}, individuals created on the fly): is_best flags {flags}, expected {ref_flags[:pos]} (first difference at #{k}: value {values[k]})",
         )
 
 
@@ -226,7 +290,10 @@ class RandomHistories(Facet):
         rec.label("kind:" + case["kind"])
         rec.sample(case, limit=2)
         if case["kind"] == "single":
-            run_single_history(case["values"], case["minimize"], case["batches"], rec, "generated", case.get("form", "list"), case.get("number_form"), len(case["values"]) % 3 == 2)
+            if case.get("form") == "lazy":
+                run_lazy_history(case["values"], case["minimize"], case["batches"], rec, "generated", case.get("number_form"))
+            else:
+                run_single_history(case["values"], case["minimize"], case["batches"], rec, "generated", case.get("form", "list"), case.get("number_form"), len(case["values"]) % 3 == 2)
             if _nontrivial_history(case["values"], case["minimize"]):
                 rec.nontrivial(case)
             return
